@@ -76,6 +76,15 @@ fn main() {
     let args: Vec<String> = std::env::args().collect();
     let cl_sets: Vec<Vec<&str>> = vec![vec![], vec!["0"], vec!["5"], vec!["64"], vec!["18446744073709551615"], vec!["18446744073709551616"], vec!["+5"], vec!["-5"],
         vec!["5 "], vec!["abc"], vec![""], vec!["5", "5"], vec!["5", "7"], vec!["0", "24"], vec!["24", "0"], vec!["5", "5", "5"]];
+    let long_vals: Vec<String> = {
+        let mut v = Vec::new();
+        for lead in 1..=9u128 { for digits in [19u32, 20, 21, 22, 25] { v.push((lead * 10u128.pow(digits - 1)).to_string()); v.push((lead * 10u128.pow(digits - 1) + 7).to_string()); } }
+        for k in [1u128, 2, 3, 5, 16, 1000] { v.push(((u64::MAX as u128) * k + k).to_string()); v.push(((u64::MAX as u128) + k).to_string()); }
+        v.push("00000000000000000000000005".to_string()); v.push("18446744073709551615".to_string()); v.push("18446744073709551614".to_string());
+        v
+    };
+    let mut cl_sets = cl_sets;
+    for v in &long_vals { cl_sets.push(vec![v.as_str()]); }
     let te_sets: Vec<Vec<&str>> = vec![vec![], vec!["chunked"], vec!["gzip"], vec!["gzip, chunked"], vec!["gzip,chunked"], vec!["chunked, gzip"], vec!["br"], vec![","],
         vec!["chunked", "chunked"], vec!["gzip", "chunked"], vec!["identity"], vec!["chunked", "identity"]];
     if args.len() >= 3 && args[1] == "replay" {
